@@ -108,7 +108,8 @@ pub fn field_expr(cx: &mut Ctx, f: &syn::ExprField) -> R<Tr> {
   let base = cx.expr(&f.base, None)?;
   let name = match &f.member { syn::Member::Named(i) => i.to_string(), _ => return Err("tuple field".into()) };
   if !base.pure { return Err("field of an impure operand".into()); }
-  match (&base.ty, name.as_str()) {
+  let bty = match &base.ty { Ty::ManuallyDrop(t) => (**t).clone(), t => t.clone() };
+  match (&bty, name.as_str()) {
     (Ty::BoxBytes, "layout") => Ok(Tr::pure(format!("(bb_layout {})", base.code), Ty::Layout)),
     (Ty::BoxBytes, "ptr") => Ok(Tr::pure(format!("(bb_ptr {})", base.code), Ty::Addr(Box::new(Ty::U8)))),
     (t, n) => Err(format!("field .{} of {:?}", n, t)),
@@ -536,13 +537,15 @@ pub fn translate_alloc_impls(ms: &ModuleSpec, file: &syn::File,
   let mut seen: Vec<String> = vec![];
   for it in &file.items {
     let im = match it { syn::Item::Impl(im) => im, _ => continue };
-    let tr = match &im.trait_ { Some((_, p, _)) => p.segments.last().map(|s| s.ident.to_string()).unwrap_or_default(), None => continue };
-    if !matches!(tr.as_str(), "BoxBytesOf" | "FromBoxBytes" | "Drop") { continue; }
+    let tr = match &im.trait_ { Some((_, p, _)) => p.segments.last().map(|s| s.ident.to_string()).unwrap_or_default(), None => "<inherent>".to_string() };
+    if !matches!(tr.as_str(), "BoxBytesOf" | "FromBoxBytes" | "Drop" | "Deref" | "DerefMut" | "<inherent>") { continue; }
     let gnames: Vec<String> = im.generics.params.iter().filter_map(|g| match g { syn::GenericParam::Type(t) => Some(t.ident.to_string()), _ => None }).collect();
-    let self_ty = ty_from_syn(&im.self_ty, &gnames)?;
+    let self_ty = match ty_from_syn(&im.self_ty, &gnames) { Ok(t) => t, Err(e) => { if tr == "<inherent>" { continue; } else { return Err(e); } } };
     let suffix = match (&tr[..], &self_ty) {
       ("Drop", Ty::BoxBytes) => "",
       ("Drop", _) => continue,
+      ("Deref", Ty::BoxBytes) | ("DerefMut", Ty::BoxBytes) | ("<inherent>", Ty::BoxBytes) => "",
+      ("Deref", _) | ("DerefMut", _) | ("<inherent>", _) => continue,
       (_, Ty::Param(_)) => "_sized",
       (_, Ty::SliceOf(_)) => "_slice",
       (_, Ty::Str) => {
@@ -556,7 +559,12 @@ pub fn translate_alloc_impls(ms: &ModuleSpec, file: &syn::File,
     for ii in &im.items {
       let m = match ii { syn::ImplItem::Fn(m) => m, _ => continue };
       let base = m.sig.ident.to_string();
-      let coq_name = if tr == "Drop" { "box_bytes_drop".to_string() } else { format!("{}{}", base, suffix) };
+      let coq_name = match tr.as_str() {
+        "Drop" => "box_bytes_drop".to_string(),
+        "Deref" | "DerefMut" => format!("box_bytes_{}", base),
+        "<inherent>" => format!("box_bytes_{}", base),
+        _ => format!("{}{}", base, suffix),
+      };
       let (ls, le) = (m.span().start().line, m.span().end().line);
       seen.push(coq_name.clone());
       let r = translate_impl_method(ms, sigs, &gnames, &self_ty, m, &coq_name, tr == "Drop");
@@ -592,12 +600,13 @@ fn translate_impl_method(ms: &ModuleSpec, sigs: &HashMap<(String, String), FnSig
   for inp in &m.sig.inputs {
     match inp {
       syn::FnArg::Receiver(r) => {
-        let t = if is_drop { Ty::BoxBytes } else { subst(&ty_from_syn(&r.ty, &g)?, &sm) };
+        // methods of BoxBytes itself take the value (the model is functional: &self / &mut self / self alike)
+        let t = if is_drop || *self_ty == Ty::BoxBytes { Ty::BoxBytes } else { subst(&ty_from_syn(&r.ty, &g)?, &sm) };
         params.push(("self".to_string(), t));
       }
       syn::FnArg::Typed(pt) => {
         let n = match &*pt.pat { syn::Pat::Ident(pi) => pi.ident.to_string(), _ => return Err("non-identifier parameter".into()) };
-        params.push((n, subst(&ty_from_syn(&pt.ty, &g)?, &sm)));
+        params.push((n, boxbytes_view(self_ty, subst(&ty_from_syn(&pt.ty, &g)?, &sm))));
       }
     }
   }
@@ -629,9 +638,31 @@ fn translate_impl_method(ms: &ModuleSpec, sigs: &HashMap<(String, String), FnSig
     let code = format!("Definition {} (ENV : env) (v_self : boxbytes) : outcome (option (N * layout)) :=\n  Ret (if {} then Some ({}, {}) else None).", coq_name, c.code, p.code, l.code);
     return Ok((code, vec![]));
   }
-  let ret = match &m.sig.output { syn::ReturnType::Default => Ty::Unit, syn::ReturnType::Type(_, t) => subst(&ty_from_syn(t, &g)?, &sm) };
+  let ret = match &m.sig.output {
+    syn::ReturnType::Default => Ty::Unit,
+    syn::ReturnType::Type(_, t) => {
+      // `&Self::Target` / `&mut Self::Target` of Deref for BoxBytes is `[u8]`
+      let txt = quote::quote!(#t).to_string().replace(' ', "");
+      if *self_ty == Ty::BoxBytes && (txt == "&Self::Target" || txt == "&mutSelf::Target") {
+        Ty::Ref(Box::new(Ty::SliceOf(Box::new(Ty::U8))))
+      } else {
+        boxbytes_view(self_ty, subst(&ty_from_syn(t, &g)?, &sm))
+      }
+    }
+  };
   let sig = FnSig { module: ms.name.to_string(), name: coq_name.to_string(), generics, params, ret };
   crate::expr::translate_fn_with(ms, &sig, &m.block, sigs, Some(self_ty.clone()), coq_name)
+}
+
+/// Inside BoxBytes' own methods a `NonNull<u8>` is the block's address, not a reference into the model's memory.
+fn boxbytes_view(self_ty: &Ty, t: Ty) -> Ty {
+  if *self_ty != Ty::BoxBytes { return t; }
+  match t {
+    Ty::Ref(p) if *p == Ty::U8 => Ty::Addr(Box::new(Ty::U8)),
+    Ty::Tuple(v) => Ty::Tuple(v.into_iter().map(|x| boxbytes_view(self_ty, x)).collect()),
+    Ty::Param(ref n) if n == "Self" => Ty::BoxBytes,
+    other => other,
+  }
 }
 
 pub fn emit_tables(_repo: &Path, _out: &Path) {}
